@@ -159,7 +159,9 @@ def rows(limit=None):
         for on, (osrc, items) in OPERANDS.items():
             if not items:
                 continue
-            row(f"each-index[{vn}][{on}]", f"{vn}@'{osrc}", listof([app.format(a=f"{i},,({it})") for i, it in enumerate(items)]))
+            # the pair [index member]: a list literal for atomic members (i,,0ca would turn the character into a string)
+            pair = lambda i, it: f"{i},,({it})" if it[0] in '["' else f"[{i} {it}]"
+            row(f"each-index[{vn}][{on}]", f"{vn}@'{osrc}", listof([app.format(a=pair(i, it)) for i, it in enumerate(items)]))
     # Iterate / Scan-Iterating: literal and computed counts (a computed count is a NumPy integer)
     for cn, csrc, cnt in (('literal', '3', 3), ('computed', '(1+2)', 3), ('from-list', '([3 9]@0)', 3), ('zero', '(1-1)', 0)):
         for vn, (vsrc, app) in (('{x*2}', ('{x*2}', '{{x*2}}({a})')), ('{1,x}', ('{1,x}', '{{1,x}}({a})'))):
